@@ -82,6 +82,12 @@ def main():
                 extra["mir_bodies"] = len(facts.body_list)
         if tier == "thorough" and hasattr(mod, "thorough"):
             extra.update(mod.thorough(ctxs, a) or {})
+        if tier == "thorough" and prop in ("C01", "C03") and not a.no_mutants:
+            try:
+                import deps_audit
+                extra.update(deps_audit.audit(a.repo))
+            except Exception as e:  # trusted-base fingerprint is informational
+                extra["dependency_audit_error"] = repr(e)
         if tier == "thorough" and not a.no_mutants:
             try:
                 import mutants
